@@ -1149,3 +1149,34 @@ def gen_nid(rng, n_random):
             steps.append({"op": "decode", "kts": KT_ALL, "input": {"from": "r"}, "tag": "nid_edge"})
     out.append({"sid": sid(), "steps": steps})
     return out
+
+
+# ---------------------------------------------------------------- further API surface
+def gen_api(rng, n):
+    """Vec<Enr> as a value, the key traits of every key type, key generation, Enr::empty"""
+    sid = Sid("api")
+    steps = []
+    for kt in ["k256", "libsecp", "ed", "comb", "wk256", "wed", "var"]:
+        for signer in signers_for(kt):
+            if kt == "var" and scheme_of(signer) != "secp":
+                continue
+            for _ in range(max(1, n // 8)):
+                steps.append({"op": "pubkey", "kt": kt, "signer": signer, "probe": rand_bytes(rng, rng.choice([0, 1, 32, 100, 300]))})
+            steps.append({"op": "build", "h": "e", "kt": kt, "signer": signer, "empty": True, "calls": [], "obs": "full"})
+    for _ in range(n):
+        steps.append({"op": "keygen", "scheme": "secp"})
+        steps.append({"op": "keygen", "scheme": "ed"})
+    out = [{"sid": sid(), "steps": steps}]
+    for i in range(n):
+        kt = KT_ALL[i % 4]
+        sigs = signers_for(kt)
+        k = rng.randrange(1, 6)
+        steps = []
+        hs = []
+        for j in range(k):
+            h = "l%d" % j
+            hs.append(h)
+            steps.append({"op": "decode", "h": h, "kt": kt, "input": recspec(rand_record(rng, signer=rng.choice(sigs))), "tag": "api_list"})
+        steps.append({"op": "encode_list", "hs": hs})
+        out.append({"sid": sid(), "steps": steps})
+    return out
